@@ -171,6 +171,13 @@ func (c *Config) Atoms(thorough bool) (full, mid, core []atoms.N) {
 			mid = append(mid, n)
 		}
 	}
+	// reserved AVP flag bits set (carried through unchanged)
+	if d, ok := a.Plain[atoms.KUTF8]; ok {
+		full = append(full, atoms.N{Code: d.Code, Flags: 0x5f, V: atoms.Val{K: atoms.KUTF8, S: []byte("ab")}})
+		mid = append(mid, atoms.N{Code: d.Code, Flags: 0x41, V: atoms.Val{K: atoms.KUTF8, S: []byte("abcde")}})
+	}
+	full = append(full, atoms.N{Code: a.Undef[0], Flags: 0x1f, V: atoms.Val{K: atoms.KUnknown, S: []byte{1}}},
+		atoms.N{Code: a.Undef[0], Flags: 0xff, Vendor: 4242, V: atoms.Val{K: atoms.KUnknown, S: []byte{1, 2}}})
 	// vendor id given without the V flag: the constructor adds the flag
 	if d, ok := a.Vend[atoms.KUTF8]; ok {
 		full = append(full, atoms.N{Code: d.Code, Flags: 0x40, Vendor: d.Vendor, V: atoms.Val{K: atoms.KUTF8, S: []byte("abc")}})
